@@ -9,6 +9,72 @@ import checks.oracles as O
 from checks.c03 import COMMON_ASSUMPTIONS
 
 
+def grpc_mappings(chk, prog):
+    """the gRPC layer: a pulled delivery is rendered field by field; a publish batch answers with the stored ids in request order"""
+    import z3
+    from gosym.core import And, Or, Not, Implies, UUIDStr, OpaqueBytes, SymMap
+    from gosym import reldb, world, stdlib
+    from gosym.world import A, val_eq
+    from checks.handlers import list_handlers, call_handler, PB, SVC
+
+    def h1(ex, ob):
+        DEL = A + 'SubscriptionMessageDelivery'
+        attrs = reldb.sym_value(ex, 'map', 'attrs')
+        payload = reldb.sym_value(ex, 'bytes', 'payload')
+        has_key = ex.choose(2) == 1
+        key = z3.String('order_key')
+        pub = z3.Int('published_at')
+        ex.assume(z3.And(pub >= 0, pub < 4 * 10**18))
+        na = z3.Int('num_attempts')
+        ex.assume(z3.And(na >= 1, na < 2**31))
+        d = ex.new_struct(DEL, ID=ex.fresh_uuid('delid'), MessageID=ex.fresh_uuid('msgid'), PublishedAt=pub, NumAttempts=na,
+                          OrderKey=(ex.new_ptr(key) if has_key else None), Payload=payload, Attributes=attrs)
+        r = ex.call_named(SVC + 'entDeliveryToGrpc', [ex.new_ptr(d)])
+        msg = ex.getf(r, 'Message')
+        ack, mid = ex.getf(r, 'AckId'), ex.getf(msg, 'MessageId')
+        ob.verify(ex, 'ack-id-is-the-delivery-id', isinstance(ack, UUIDStr) and ex.eq(ack.v, ex.getf(d, 'ID')))
+        ob.verify(ex, 'message-id-is-the-published-id', isinstance(mid, UUIDStr) and ex.eq(mid.v, ex.getf(d, 'MessageID')))
+        ob.verify(ex, 'payload-and-attributes-verbatim', ex.getf(msg, 'Data') is payload and ex.getf(msg, 'Attributes') is attrs)
+        ob.verify(ex, 'ordering-key', ex.eq(ex.getf(msg, 'OrderingKey'), key if has_key else ''))
+        pt = ex.getf(msg, 'PublishTime')
+        ob.verify(ex, 'publish-time', And(ex.eq(ex.getf(pt, 'Seconds') * 10**9 + ex.getf(pt, 'Nanos'), pub), ex.getf(pt, 'Nanos') >= 0, ex.getf(pt, 'Nanos') < 10**9))
+        ob.verify(ex, 'delivery-attempt', ex.eq(ex.getf(r, 'DeliveryAttempt'), na))
+    chk.run('grpc:pull-response-mapping', prog, h1, bounds={'delivery': 'fully symbolic'}, setup=world.setup)
+
+    hp = [x for x in list_handlers(prog) if x['method'] == 'Publish'][0]
+
+    def h2(ex, ob):
+        db = reldb.sym_db(ex, prog, {'Topic': 1, 'Subscription': 1, 'Message': 0, 'Delivery': 0}, exists=True)
+        db.t['Topic'][0].v['name'] = 'projects/p/topics/r0'
+        ex.assume(And(db.t['Topic'][0].isnull('deleted_at'), db.t['Subscription'][0].isnull('deleted_at'), db.t['Subscription'][0].isnull('filter'),
+                      db.t['Subscription'][0].v['topic_id'] == db.t['Topic'][0].v['id']))
+        n = 1 + ex.choose(2)
+        msgs, reqm = [], []
+        for i in range(n):
+            data = OpaqueBytes(z3.Int('data%d' % i), z3.Int('len%d' % i))
+            ex.assume(data.len >= 1)
+            attrs = reldb.sym_value(ex, 'map', 'attrs%d' % i)
+            key = z3.String('key%d' % i)
+            reqm.append((data, attrs, key))
+            msgs.append(ex.new_ptr(ex.new_struct(PB + 'PubsubMessage', Data=data, Attributes=attrs, OrderingKey=key)))
+        req = ex.new_ptr(ex.new_struct(PB + 'PublishRequest', Topic='projects/p/topics/r0', Messages=ex.mkslice(msgs)))
+        resp, err, code = call_handler(ex, db, hp, req)
+        ob.verify(ex, 'publish-accepted', err is None)
+        if err is not None:
+            return
+        ids = ex.getf(resp, 'MessageIds').items()
+        rows = db.t['Message']
+        ob.verify(ex, 'one-id-and-one-row-per-message', len(ids) == n and len(rows) == n)
+        for i in range(min(n, len(rows), len(ids))):
+            data, attrs, key = reqm[i]
+            ob.verify(ex, 'response-id-in-request-order[%d]' % i, isinstance(ids[i], UUIDStr) and ex.eq(ids[i].v, rows[i].v['id']))
+            ob.verify(ex, 'stored-verbatim[%d]' % i, And(val_eq(ex, rows[i].v['payload'], data), val_eq(ex, rows[i].v['attributes'], attrs),
+                                                          Or(And(ex.eq(key, ''), rows[i].isnull('order_key')), And(Not(rows[i].isnull('order_key')), ex.eq(rows[i].v['order_key'], key)))))
+            cnt = sum([z3.If(And(d.exists, ex.eq(d.v['message_id'], rows[i].v['id']), ex.eq(d.v['subscription_id'], db.t['Subscription'][0].v['id'])), 1, 0) for d in db.t['Delivery']])
+            ob.verify(ex, 'one-delivery-for-the-subscription[%d]' % i, cnt == 1)
+    chk.run('grpc:publish-batch-fidelity', prog, h2, bounds={'batch': '1..2 messages'}, setup=world.setup, max_paths=50000)
+
+
 def main():
     chk = Check('C02')
     prog = load_program()
@@ -24,6 +90,7 @@ def main():
             fs = [O.c01_publish]     # published content is stored verbatim (payload, attributes, ordering key, id)
         T.oracle = (lambda fs, T: lambda ex, S: [x for f in fs for x in f(ex, S, T)])(fs, T)
         run_transition(chk, prog, T, max_paths=300000)
+    grpc_mappings(chk, prog)
     chk.bounds = {'tables': 'per obligation (see per_obligation.bounds)', 'steps': 1}
     chk.assumptions.append('payloads are opaque values with identity and a symbolic length: byte-level JSON normalisation by the database is outside the claim')
     chk.finish()
